@@ -399,6 +399,18 @@ def flat_f(a, r, c):
 
 class C08(Family):
     prop = "C08"
+    # source-text tie (notes/NOTES-py2lean-nlsys.md): Generated/NL*.lean are rewritten from the text of
+    # control/nlsys.py of the tree under check on every run and proved equal to the model
+    extra_modules = ["CtrlVerif.Props.C08GenUfun", "CtrlVerif.Props.C08GenLoop", "CtrlVerif.Props.C08GenGrid",
+                     "CtrlVerif.Props.C08GenVector", "CtrlVerif.Props.C08GenBroadcast", "CtrlVerif.Props.C08GenLin",
+                     "CtrlVerif.Props.C08GenOpSetup", "CtrlVerif.Props.C08GenOp", "CtrlVerif.Props.C08GenOpShort",
+                     "CtrlVerif.Props.C08GenParams"]
+
+    def pre_build(self):
+        import os
+        from core import py2lean_nl, leanproj
+        problems, self.gen_info = py2lean_nl.regenerate(os.environ.get("VERIF_REPO") or "/repo", leanproj.LEAN)
+        return problems
     externals = ["scipy.optimize.root (find_operating_point: the model solves the affine root problem "
                  "exactly and checks the certificate rootfun(z) = 0)",
                  "scipy.integrate.solve_ivp (continuous-time simulation: not modelled; for interconnections "
@@ -423,7 +435,12 @@ class C08(Family):
         "call histories: the only state an I/O-system object carries between calls is `_current_params` "
         "(modelled by PObj; theorems update_params_history, call_history, update_params_functional show that "
         "the history-free model the driver executes is what every call must give); the omitted arguments of "
-        "input_output_response are the documented defaults inputs = 0, initial_state = 0"]
+        "input_output_response are the documented defaults inputs = 0, initial_state = 0",
+        "argument-sharing histories: a call may hand back an array of the caller (the inputs-fixed branch of "
+        "find_operating_point returns the processed u0, a view) - only contents are compared, never identity; "
+        "the model's operating point does not depend on the guess at free components, so a warm start from an "
+        "earlier result is judged against the same unique solution (fixed components are never written: "
+        "theorem op_call_frame); results are re-read bit-for-bit, the caller's arrays compared exactly"]
     rule = ("discrete-time polynomial systems (degree <= 2, parameters, time dependence), StateSpace "
             "leaves, scalar/array gains, combined by * + - / neg feedback (depth <= 2/3, non-square "
             "shapes); inputs as scalars, 1-D/2-D arrays, lists of lists, mixed lists; initial states as "
@@ -444,9 +461,17 @@ class C08(Family):
             "Argument forms: linearize at an OperatingPoint object / a state with the input positional, keyword, "
             "None or omitted through the method and the function (maps of degree 2 with terms in u); "
             "input_output_response with inputs / initial state omitted or given by keyword under either name.  "
+            "Argument-sharing histories (round 3): 2-4 calls on one system, mostly find_operating_point with the "
+            "same index lists and varying targets (all three branches, every timebase), linearize / dynamics / "
+            "output / input_output_response in between; initial guesses, targets, derivs and the input array are "
+            "the same caller-owned objects in every call (float ndarray, (k,1) column, strided view of a larger "
+            "array, integer ndarray, Python list; one array as state and input guess) or the live arrays of an "
+            "earlier OperatingPoint (warm start); every call compared with the value model, every result read "
+            "again after the last call, the caller's objects compared with their initial contents after every call.  "
             "Non-trivial: simulation with >= 3 steps "
             "and a non-zero input or initial state; linearisation/operating point with >= 1 state; shape "
-            "case with an operator; history with an override followed by a call without one")
+            "case with an operator; history with an override followed by a call without one; argument-sharing "
+            "history with >= 2 calls on shared arrays one of which is an operating point the model determines")
 
     force_n = None       # when set, every generated leaf has this many states
 
@@ -1272,6 +1297,313 @@ class C08(Family):
                 steps.append(step(q, override(subtree(tree, q)) if rng.random() < 0.5 else {}))
         return {"kind": "hist", "sys": tree, "eager": rng.random() < 0.6, "steps": steps}
 
+    # ==== round 3 (C08-m7) BEGIN: caller-owned argument objects shared between calls; results read again ====
+    # case {"kind": "ahist", "sys": tree, "pool": {name: [container, values]}, "steps": [...]}:
+    #   the pool holds the arrays / lists the *caller* owns (container "A" float ndarray, "AC" float
+    #   column (k, 1), "AV" strided view `big[1::2]` of a larger float array, "AI" integer ndarray, "L"
+    #   Python list, "A2" float (m, N) input array); a step is a call on the root object whose vector
+    #   arguments are plain values, ["R", name] (the pool object itself, the same object in every call
+    #   that names it) or ["W", j, field, fallback] (the live `states` / `inputs` array of the
+    #   OperatingPoint returned by call j: a warm start).  Every call is answered by the history-free
+    #   model (values); the results are read when the call returns *and again after the last call*, and
+    #   the pool is compared with its initial contents after every call.
+    POOL_KINDS = ["A", "A", "A", "A", "AC", "AV", "AI", "L"]
+    REF_KEYS = ("X0", "U0", "Y0", "U", "dx0", "x", "u")
+
+    @staticmethod
+    def is_ref(a):
+        return isinstance(a, list) and len(a) > 0 and a[0] in ("R", "W")
+
+    @staticmethod
+    def pool_varg(ent):
+        """the by-value argument with the contents of a pool entry"""
+        if ent[0] == "A2":
+            return ent
+        return ["L", [["s", v] for v in ent[1]]] if ent[0] == "L" else ["A", list(ent[1])]
+
+    @staticmethod
+    def pool_object(ent):
+        """(the object handed to the library, the object whose contents the caller can see)"""
+        kind = ent[0]
+        if kind == "A2":
+            o = np.array([float(Fraction(v)) for v in ent[3]]).reshape(ent[1], ent[2])
+            return o, o
+        fl = [float(Fraction(v)) for v in ent[1]]
+        if kind == "A":
+            o = np.array(fl)
+            return o, o
+        if kind == "AC":
+            o = np.array(fl).reshape(-1, 1)
+            return o, o
+        if kind == "AV":
+            big = np.full(2 * len(fl) + 1, 7.0)
+            big[1::2] = fl
+            return big[1::2], big
+        if kind == "AI":
+            o = np.array([int(Fraction(v)) for v in ent[1]], dtype=np.int64)
+            return o, o
+        o = varg_value(["L", [["s", v] for v in ent[1]]])
+        return o, o
+
+    @staticmethod
+    def pool_snap(own):
+        def one(x):
+            try:
+                return tok(fr(float(x)))
+            except Exception:  # noqa  (nan / inf)
+                return repr(x)
+        if isinstance(own, np.ndarray):
+            return [str(own.dtype), list(own.shape), [one(x) for x in own.reshape(-1)]]
+        return ["list", [len(own)], ["%s:%s" % (type(x).__name__, one(x)) for x in own]]
+
+    def astep_case(self, case, st):
+        """one call of an argument-sharing history as a case of its own, references replaced by the
+        values the caller put into the pool (warm starts: by the values they stand for)"""
+        c = dict(st)
+        c["sys"] = case["sys"]
+        for key in self.REF_KEYS:
+            a = c.get(key)
+            if not self.is_ref(a):
+                continue
+            if a[0] == "W":
+                c[key] = a[3]
+                continue
+            ent = case["pool"][a[1]]
+            c[key] = list(ent[1]) if key in ("dx0", "x", "u") else self.pool_varg(ent)
+        return c
+
+    def case_ahist(self, rng, tier):
+        """the usage pattern of a scheduling loop: several `find_operating_point` calls on one system
+        with the same index lists and varying targets, the initial guesses being the *same* caller-owned
+        arrays in every call (or the arrays returned by an earlier call); `linearize`, `dynamics`,
+        `output`, `input_output_response` calls on the same arrays in between"""
+        dts = ["N", "C", "C", "D1", "T", "D1"]
+        base = self.case_op_general(rng, tier, dts) if rng.random() < 0.75 else self.case_op(rng, tier, dts=dts)
+        tree = base["sys"]
+        p, n, m, _ = self.model_shape(tree)
+        dt = tree_dt(tree)
+        val = lambda: str(rng.randint(-3, 3))
+        xv = [e[1] for e in base["X0"][1]]
+        uv = [e[1] for e in base["U0"][1]]
+        pool = {}
+        uname = "u"
+        if n:
+            pool["x"] = [rng.choice(self.POOL_KINDS), xv]
+            pool["d"] = [rng.choice(["A", "A", "AV", "AI", "L"]), [val() for _ in range(n)]]
+        if m:
+            if n == m and rng.random() < 0.08:
+                uname, uv = "x", xv            # one array given as state guess *and* as input guess
+            else:
+                pool["u"] = [rng.choice(self.POOL_KINDS), uv]
+        if p:
+            pool["y"] = [rng.choice(self.POOL_KINDS), [val() for _ in range(p)]]
+        other = tree[0] != "L"
+        disc = other and dt in ("T", "D1")
+        N = rng.choice([3, 4, 5])
+        if disc and m:
+            pool["U"] = ["A2", m, N, [val() for _ in range(m * N)]]
+        style = {k: rng.choice(["R", "R", "R", "W", "W", "V", "mix"]) for k in ("x", "u")}
+        general = any(base[q] is not None for q in ("iu", "iy", "ix", "idx"))
+
+        def pick(name, k, vals, prev_ops, warm=True):
+            if k == 0:
+                return ["L", []]
+            sname = uname if name == "u" else name
+            r = style[name]
+            if r == "mix":
+                r = rng.choice(["R", "R", "W", "V"])
+            if r == "W" and not (warm and prev_ops):
+                r = "R" if rng.random() < 0.7 else "V"
+            if r == "R":
+                return ["R", sname]
+            if r == "W":
+                j = prev_ops[-1] if rng.random() < 0.7 else rng.choice(prev_ops)
+                return ["W", j, name, ["A", list(vals)]]
+            return ["A", list(vals)] if rng.random() < 0.5 else ["L", [["s", v] for v in vals]]
+
+        steps, prev_ops = [], []
+        for j in range(rng.choice([2, 3, 3, 4])):
+            r = rng.random()
+            if j == 0 and r < 0.85 or j > 0 and r < 0.65 or not other:
+                st = {"kind": "op", "t": base["t"] if rng.random() < 0.7 else str(rng.choice([0, 1, 2])),
+                      "X0": pick("x", n, xv, prev_ops), "U0": pick("u", m, uv, prev_ops),
+                      "iu": base["iu"], "iy": base["iy"], "ix": base["ix"], "idx": base["idx"], "params": {}}
+                if base["Y0"][0] == "N":
+                    st["Y0"] = ["N"]
+                elif p and rng.random() < 0.3:
+                    st["Y0"] = ["R", "y"]
+                else:
+                    yv = [val() for _ in range(p)]
+                    st["Y0"] = ["A", yv] if rng.random() < 0.4 else ["L", [["s", v] for v in yv]]
+                given = base["dx0"] is not None
+                if general and rng.random() < 0.3:
+                    given = not given
+                if not given or n == 0:
+                    st["dx0"] = None if not given else []
+                elif rng.random() < 0.4:
+                    st["dx0"] = ["R", "d"]
+                else:
+                    st["dx0"] = [val() for _ in range(n)]
+                prev_ops.append(j)
+            else:
+                kind = rng.choice(["lin", "dyn", "out"] + (["resp", "resp"] if disc else []))
+                if kind == "lin":
+                    st = {"kind": "lin", "t": str(rng.choice([0, 0, 1, 2])),
+                          "X0": pick("x", n, xv, prev_ops, warm=False), "U0": pick("u", m, uv, prev_ops, warm=False),
+                          "via": rng.choice(["method", "func"]), "params": {}}
+                elif kind == "resp":
+                    T, _h = self.grid(rng, dt, N)
+                    st = {"kind": "resp", "T": [tok(x) for x in T], "teval": None,
+                          "U": ["R", "U"] if (m and rng.random() < 0.7) else self.gen_U(rng, m, N),
+                          "X0": pick("x", n, xv, prev_ops, warm=False), "params": {}}
+                else:
+                    st = {"kind": kind, "t": str(rng.choice([0, 0, 1, 2])), "via": "method", "params": {},
+                          "x": ["R", "x"] if (n and rng.random() < 0.7) else list(xv),
+                          "u": ["R", uname] if (m and rng.random() < 0.7) else list(uv)}
+            steps.append(st)
+        return {"kind": "ahist", "sys": tree, "pool": pool, "steps": steps}
+
+    def _impl_ahist(self, case):
+        try:
+            sys = build(case["sys"])
+        except Exception as e:  # noqa  (the system cannot be built: every call reports it)
+            r = {"err": classify_exc(e), "exc": "%s: %s" % (type(e).__name__, str(e)[:200])}
+            return {"steps": [r for _ in case["steps"]], "end": [r for _ in case["steps"]], "pool_changed": None}
+        objs, owners = {}, {}
+        for name, ent in case["pool"].items():
+            objs[name], owners[name] = self.pool_object(ent)
+        snap0 = {name: self.pool_snap(own) for name, own in owners.items()}
+        field = {"x": "states", "u": "inputs", "y": "outputs"}
+        live, rets, changed = [], [], None
+        err = lambda e: {"err": classify_exc(e), "exc": "%s: %s" % (type(e).__name__, str(e)[:200])}
+        for j, st in enumerate(case["steps"]):
+            sc = self.astep_case(case, st)
+            vals = {}
+            for key in self.REF_KEYS:
+                a = st.get(key)
+                if not self.is_ref(a):
+                    continue
+                if a[0] == "R":
+                    o = objs[a[1]]
+                    if key in ("x", "u") and not (isinstance(o, np.ndarray) and o.ndim == 1 and o.dtype == float):
+                        continue        # dynamics / output take 1-D float arrays: given by value
+                    vals[key] = o
+                elif live[a[1]] is not None:
+                    vals[key] = getattr(live[a[1]], field[a[2]])
+            raw = None
+            try:
+                raw = self._invoke(sc, sys, vals)
+                rets.append(self._extract(sc, sys, raw))
+            except Exception as e:  # noqa
+                raw = None
+                rets.append(err(e))
+            live.append(raw)
+            if changed is None:
+                for name in sorted(owners):
+                    now = self.pool_snap(owners[name])
+                    if now != snap0[name]:
+                        changed = {"after": j, "name": name, "was": snap0[name], "now": now}
+                        break
+        ends = []
+        for j, st in enumerate(case["steps"]):
+            if live[j] is None:
+                ends.append(rets[j])
+                continue
+            try:
+                ends.append(self._extract(self.astep_case(case, st), sys, live[j]))
+            except Exception as e:  # noqa
+                ends.append(err(e))
+        return {"steps": rets, "end": ends, "pool_changed": changed}
+
+    def compare_ahist(self, case, impl, model):
+        steps = case["steps"]
+        names = {"A": "float ndarray", "AC": "float column ndarray (k, 1)", "AV": "strided view of a larger float ndarray",
+                 "AI": "integer ndarray", "L": "Python list", "A2": "float (m, N) ndarray"}
+
+        def role(j, name):
+            return "+".join(sorted(k for k in self.REF_KEYS if self.is_ref(steps[j].get(k)) and steps[j][k][0] == "R"
+                                   and steps[j][k][1] == name)) or "not-passed"
+
+        def sharing():
+            ks = set()
+            for st in steps:
+                for k in self.REF_KEYS:
+                    if self.is_ref(st.get(k)):
+                        ks.add("warm-start" if st[k][0] == "W" else "pool:" + case["pool"][st[k][1]][0])
+            return "+".join(sorted(ks)) or "by-value"
+        for j, st in enumerate(steps):
+            v = self.compare(self.astep_case(case, st), impl["steps"][j], model["steps"][j])
+            if v.status != AGREE:
+                feat = dict(v.features or {})
+                feat.update({"op": "ahist", "call": st["kind"], "history": "after-calls" if j else "first-call"})
+                return Verdict(v.status, "call %d of %d (%s, after %s): %s" % (
+                    j + 1, len(steps), st["kind"], ", ".join(b["kind"] for b in steps[:j]) or "no other call",
+                    v.detail), feat)
+        ch = impl.get("pool_changed")
+        if ch:
+            j, name = ch["after"], ch["name"]
+            cont = case["pool"][name][0]
+            return Verdict(VIOLATES, "call %d of %d (%s) changed an array of the caller: the %s given as %s held %s "
+                           "before the call and holds %s after it (every call returned what was requested)" % (
+                               j + 1, len(steps), steps[j]["kind"], names[cont], role(j, name), ch["was"][2], ch["now"][2]),
+                           {"kind": "argument-mutated", "op": "ahist", "call": steps[j]["kind"], "arg": role(j, name),
+                            "container": cont})
+        for j, st in enumerate(steps):
+            a, b = impl["steps"][j], impl["end"][j]
+            if a == b:
+                continue
+            fld = "raises" if "err" in b else next((k for k in sorted(a.get("ok", {})) if a["ok"][k] != b["ok"].get(k)), "?")
+            was = a.get("ok", {}).get(fld)
+            now = b.get("ok", {}).get(fld) if "ok" in b else b.get("exc")
+            return Verdict(VIOLATES, "the result of call %d of %d (%s) was right when the call returned and reads "
+                           "differently after the later call(s) %s: %s was %s, now %s" % (
+                               j + 1, len(steps), st["kind"], ", ".join(b2["kind"] for b2 in steps[j + 1:]), fld, was, now),
+                           {"kind": "result-changed-later", "op": "ahist", "call": st["kind"], "field": fld,
+                            "sharing": sharing()})
+        return Verdict(AGREE)
+
+    def shrink_ahist(self, case):
+        st = case["steps"]
+        refs_to = lambda j: any(self.is_ref(x.get(k)) and x[k][0] == "W" and x[k][1] == j
+                                for x in st for k in self.REF_KEYS)
+        for j in reversed(range(len(st))):
+            if len(st) > 1 and not refs_to(j):
+                c = dict(case)
+                new = []
+                for i, x in enumerate(st):
+                    if i == j:
+                        continue
+                    x = dict(x)
+                    for k in self.REF_KEYS:
+                        if self.is_ref(x.get(k)) and x[k][0] == "W" and x[k][1] > j:
+                            x[k] = ["W", x[k][1] - 1] + list(x[k][2:])
+                    new.append(x)
+                c["steps"] = new
+                yield c
+        for j, x in enumerate(st):          # a reference replaced by the value
+            for k in self.REF_KEYS:
+                if self.is_ref(x.get(k)):
+                    c = dict(case)
+                    c["steps"] = [dict(y) for y in st]
+                    c["steps"][j][k] = self.astep_case(case, x)[k]
+                    yield c
+        used = {x[k][1] for x in st for k in self.REF_KEYS if self.is_ref(x.get(k)) and x[k][0] == "R"}
+        if set(case["pool"]) - used:
+            c = dict(case)
+            c["pool"] = {k: v for k, v in case["pool"].items() if k in used}
+            yield c
+
+    def extra3(self, rng, tier):
+        n = 160 if tier == "quick" else 2400
+        out = []
+        for _ in range(n):
+            try:
+                out.append(self.case_ahist(rng, tier))
+            except RecursionError:
+                continue
+        return out
+    # ==== round 3 (C08-m7) END ====
+
     def extra2(self, rng, tier):
         n = 240 if tier == "quick" else 3600
         out = []
@@ -1314,7 +1646,8 @@ class C08(Family):
 
     def generate(self, rng, tier):
         # the original streams first (same cases per seed as before), then the added input classes
-        return self.generate0(rng, tier) + self.extra(rng, tier) + self.extra2(rng, tier)
+        return self.generate0(rng, tier) + self.extra(rng, tier) + self.extra2(rng, tier) + \
+            self.extra3(rng, tier)       # round 3: appended, the earlier streams are unchanged per seed
 
     def generate0(self, rng, tier):
         n = 720 if tier == "quick" else 18000
@@ -1410,6 +1743,33 @@ class C08(Family):
                                     P(1, 1, 1, [[["-1", [["x0", 1]]], ["1", [["u0", 2]]]]], [x(0)], "D1"), gain5],
              "t": "0", "X0": ["L", [["s", "1"]]], "op": {"inputs": ["L", [["s", "3"]]], "outputs": True},
              "U0": ["N"], "uform": "omit", "tform": "kw", "via": "method", "params": {}},
+        ] + self.corpus3()
+
+    def corpus3(self):
+        """(round 3) a scheduling loop: the index-list form of find_operating_point three times with the
+        same two float arrays as initial guesses and output levels 1, 2, 3; the same with a warm start
+        from the arrays of the previous OperatingPoint; simulation / linearisation on shared arrays"""
+        P = lambda n, m, p, fs, hs, dt="C": ["P", n, m, p, dt, {}, fs, hs]
+        tank = P(1, 1, 1, [[["-2", [["x0", 1]]], ["1", [["u0", 1]]]]], [[["1", [["x0", 1]]]]])
+        lagd = P(1, 1, 1, [[["1/2", [["x0", 1]]], ["1", [["u0", 1]]]]], [[["1", [["x0", 1]]]]], "D1")
+        op = lambda y, X0, U0: {"kind": "op", "t": "0", "X0": X0, "U0": U0, "Y0": ["L", [["s", y]]], "dx0": None,
+                                "iu": None, "iy": [0], "ix": None, "idx": None, "params": {}}
+        return [
+            {"kind": "ahist", "sys": tank, "pool": {"x": ["A", ["1/2"]], "u": ["A", ["1/2"]]},
+             "steps": [op(y, ["R", "x"], ["R", "u"]) for y in ("1", "2", "3")]},
+            {"kind": "ahist", "sys": tank, "pool": {"x": ["A", ["1/2"]], "u": ["AV", ["1/2"]]},
+             "steps": [op("1", ["R", "x"], ["R", "u"]),
+                       op("2", ["W", 0, "x", ["A", ["1/2"]]], ["W", 0, "u", ["A", ["1/2"]]]),
+                       op("3", ["W", 1, "x", ["A", ["1/2"]]], ["W", 1, "u", ["A", ["1/2"]]])]},
+            {"kind": "ahist", "sys": lagd,
+             "pool": {"x": ["A", ["2"]], "u": ["A", ["1"]], "U": ["A2", 1, 4, ["1", "-1", "2", "0"]]},
+             "steps": [{"kind": "resp", "T": ["0", "1", "2", "3"], "teval": None, "U": ["R", "U"], "X0": ["R", "x"],
+                        "params": {}},
+                       {"kind": "op", "t": "0", "X0": ["R", "x"], "U0": ["R", "u"], "Y0": ["N"], "dx0": None,
+                        "iu": [0], "iy": None, "ix": None, "idx": None, "params": {}},
+                       {"kind": "lin", "t": "0", "X0": ["R", "x"], "U0": ["R", "u"], "via": "method", "params": {}},
+                       {"kind": "resp", "T": ["0", "1", "2", "3"], "teval": None, "U": ["R", "U"], "X0": ["R", "x"],
+                        "params": {}}]},
         ]
 
     # ---- execution ----------------------------------------------------------
@@ -1426,6 +1786,8 @@ class C08(Family):
             # the model has no state: every call is answered from the sub-tree and the arguments alone
             # (theorems update_params_history / call_history / update_params_functional)
             return [self.line(self.step_case(case, st)) for st in case["steps"]]
+        if k == "ahist":     # (round 3) values only: theorems op_history_frame / op_results_stable
+            return [self.line(self.astep_case(case, st)) for st in case["steps"]]
         prog = flatten(case["sys"]) + " ;"
         if k == "shape":
             return "io shape " + prog
@@ -1478,14 +1840,23 @@ class C08(Family):
                 except Exception as e:  # noqa
                     res.append({"err": classify_exc(e), "exc": "%s: %s" % (type(e).__name__, str(e)[:200])})
             return {"steps": res}
+        if k == "ahist":     # (round 3)
+            return self._impl_ahist(case)
         return self._impl1(case, build(case["sys"]))
 
     def _impl1(self, case, sys):
+        return self._extract(case, sys, self._invoke(case, sys))
+
+    # (round 3) `_impl1` in two halves: `_invoke` makes the call and returns the live object the
+    # library handed back, `_extract` reads it into the canonical form.  `vals` replaces argument
+    # values computed from the case by objects the caller owns (shared between calls).
+    def _invoke(self, case, sys, vals=None):
+        vals = vals or {}
+        arg = lambda nm, f: vals[nm] if nm in vals else f(case[nm])
         k = case["kind"]
         prm = {a: float(Fraction(v)) for a, v in case.get("params", {}).items()} or None
         if k == "shape":
-            return {"ok": {"n": sys.nstates, "m": sys.ninputs, "p": sys.noutputs,
-                           "dt": exact.dt_canon(sys.dt), "type": type(sys).__name__}}
+            return sys
         if k == "resp":
             T = np.array([float(Fraction(x)) for x in case["T"]])
             kw = {}
@@ -1494,27 +1865,16 @@ class C08(Family):
             if "forms" in case:
                 fm = case["forms"]
                 args = [sys]
-                for nm, val in (("T", T), ("U", uarg_value(case["U"])), ("X0", varg_value(case["X0"]))):
+                for nm, val in (("T", T), ("U", arg("U", uarg_value)), ("X0", arg("X0", varg_value))):
                     if fm[nm] == "pos":
                         args.append(val)
                     elif fm[nm] != "omit":
                         kw[fm[nm]] = val
                 if "t_eval" in kw:
                     kw[fm["te"]] = kw.pop("t_eval")
-                resp = ct.input_output_response(*args, params=prm, squeeze=False, **kw)
-            else:
-                resp = ct.input_output_response(sys, T, uarg_value(case["U"]), varg_value(case["X0"]),
-                                                params=prm, squeeze=False, **kw)
-            N = len(resp.time)
-            n, m, p = sys.nstates, sys.ninputs, sys.noutputs
-            try:
-                xs = [] if (n == 0 or resp.states is None) else flat_f(np.asarray(resp.states).T, N, n)
-                return {"ok": {"N": N, "n": n, "m": m, "p": p,
-                               "t": [tok(fr(x)) for x in resp.time],
-                               "x": xs, "u": flat_f(np.asarray(resp.inputs).T, N, m),
-                               "y": flat_f(np.asarray(resp.outputs).T, N, p)}}
-            except ValueError:
-                return {"ok": {"nonfinite": True}}
+                return ct.input_output_response(*args, params=prm, squeeze=False, **kw)
+            return ct.input_output_response(sys, T, arg("U", uarg_value), arg("X0", varg_value),
+                                            params=prm, squeeze=False, **kw)
         if k == "cresp":
             T = np.array([float(Fraction(x)) for x in case["T"]])
             kw = {}
@@ -1522,20 +1882,10 @@ class C08(Family):
                 kw["t_eval"] = np.array([float(Fraction(x)) for x in case["teval"]])
             # absolute tolerance at the level of the signals (a power-of-two multiple of 1e-12)
             opts = {"rtol": 1e-10, "atol": 1e-13 * 2.0 ** -case["scale"], "method": case["method"]}
-            resp = ct.input_output_response(sys, T, uarg_value(case["U"]), varg_value(case["X0"]),
+            return ct.input_output_response(sys, T, uarg_value(case["U"]), varg_value(case["X0"]),
                                             params=prm, squeeze=False, solve_ivp_kwargs=opts, **kw)
-            N = len(resp.time)
-            n, m, p = sys.nstates, sys.ninputs, sys.noutputs
-            try:
-                return {"ok": {"N": N, "n": n, "m": m, "p": p,
-                               "t": [tok(fr(x)) for x in resp.time],
-                               "x": flat_f(np.asarray(resp.states).T, N, n),
-                               "u": flat_f(np.asarray(resp.inputs).T, N, m),
-                               "y": flat_f(np.asarray(resp.outputs).T, N, p)}}
-            except ValueError:
-                return {"ok": {"nonfinite": True}}
         if k == "lin":
-            x0, u0 = varg_value(case["X0"]), varg_value(case["U0"])
+            x0, u0 = arg("X0", varg_value), arg("U0", varg_value)
             t = float(Fraction(case["t"]))
             kw = {"eps": float(Fraction(case["eps"]))} if case.get("eps") else {}
             if "uform" in case:
@@ -1551,26 +1901,19 @@ class C08(Family):
                     args.append(u0)
                 elif case["uform"] == "kw":
                     kw["ueq" if case["via"] == "func" else "u0"] = u0
-                lin = ct.linearize(sys, *args, **kw) if case["via"] == "func" else sys.linearize(*args, **kw)
-            elif case["via"] == "func":
-                lin = ct.linearize(sys, x0, u0, t=t, params=prm, **kw)
-            else:
-                lin = sys.linearize(x0, u0, t=t, params=prm, **kw)
-            n, m, p = lin.nstates, lin.ninputs, lin.noutputs
-            return {"ok": {"n": n, "m": m, "p": p, "dt": exact.dt_canon(lin.dt),
-                           "A": flat_f(lin.A, n, n), "B": flat_f(lin.B, n, m),
-                           "C": flat_f(lin.C, p, n), "D": flat_f(lin.D, p, m)}}
+                return ct.linearize(sys, *args, **kw) if case["via"] == "func" else sys.linearize(*args, **kw)
+            if case["via"] == "func":
+                return ct.linearize(sys, x0, u0, t=t, params=prm, **kw)
+            return sys.linearize(x0, u0, t=t, params=prm, **kw)
         if k in ("dyn", "out"):
             t = float(Fraction(case["t"]))
-            x = np.array([float(Fraction(v)) for v in case["x"]])
-            u = np.array([float(Fraction(v)) for v in case["u"]])
+            x = arg("x", lambda l: np.array([float(Fraction(v)) for v in l]))
+            u = arg("u", lambda l: np.array([float(Fraction(v)) for v in l]))
             if k == "dyn":
-                v = sys.dynamics(t, x, u, params=prm)
-            elif case.get("via") == "call":
-                v = sys(u, params=prm, squeeze=False)
-            else:
-                v = sys.output(t, x, u, params=prm)
-            return {"ok": {"v": [tok(fr(q)) for q in np.asarray(v, dtype=float).reshape(-1)]}}
+                return sys.dynamics(t, x, u, params=prm)
+            if case.get("via") == "call":
+                return sys(u, params=prm, squeeze=False)
+            return sys.output(t, x, u, params=prm)
         if k == "op":
             kw = {}
             for nm, key in (("iu", "input_indices"), ("iy", "output_indices"), ("ix", "state_indices"),
@@ -1578,10 +1921,51 @@ class C08(Family):
                 if case[nm] is not None:
                     kw[key] = list(case[nm])
             if case["dx0"] is not None:
-                kw["derivs"] = [float(Fraction(x)) for x in case["dx0"]]
-            y0 = varg_value(case["Y0"])
-            op = ct.find_operating_point(sys, varg_value(case["X0"]), varg_value(case["U0"]), y0,
-                                         t=float(Fraction(case["t"])), params=prm, return_result=True, **kw)
+                kw["derivs"] = arg("dx0", lambda l: [float(Fraction(x)) for x in l])
+            return ct.find_operating_point(sys, arg("X0", varg_value), arg("U0", varg_value),
+                                           arg("Y0", varg_value), t=float(Fraction(case["t"])), params=prm,
+                                           return_result=True, **kw)
+        raise ValueError(k)
+
+    def _extract(self, case, sys, raw):
+        k = case["kind"]
+        if k == "shape":
+            return {"ok": {"n": sys.nstates, "m": sys.ninputs, "p": sys.noutputs,
+                           "dt": exact.dt_canon(sys.dt), "type": type(sys).__name__}}
+        if k == "resp":
+            resp = raw
+            N = len(resp.time)
+            n, m, p = sys.nstates, sys.ninputs, sys.noutputs
+            try:
+                xs = [] if (n == 0 or resp.states is None) else flat_f(np.asarray(resp.states).T, N, n)
+                return {"ok": {"N": N, "n": n, "m": m, "p": p,
+                               "t": [tok(fr(x)) for x in resp.time],
+                               "x": xs, "u": flat_f(np.asarray(resp.inputs).T, N, m),
+                               "y": flat_f(np.asarray(resp.outputs).T, N, p)}}
+            except ValueError:
+                return {"ok": {"nonfinite": True}}
+        if k == "cresp":
+            resp = raw
+            N = len(resp.time)
+            n, m, p = sys.nstates, sys.ninputs, sys.noutputs
+            try:
+                return {"ok": {"N": N, "n": n, "m": m, "p": p,
+                               "t": [tok(fr(x)) for x in resp.time],
+                               "x": flat_f(np.asarray(resp.states).T, N, n),
+                               "u": flat_f(np.asarray(resp.inputs).T, N, m),
+                               "y": flat_f(np.asarray(resp.outputs).T, N, p)}}
+            except ValueError:
+                return {"ok": {"nonfinite": True}}
+        if k == "lin":
+            lin = raw
+            n, m, p = lin.nstates, lin.ninputs, lin.noutputs
+            return {"ok": {"n": n, "m": m, "p": p, "dt": exact.dt_canon(lin.dt),
+                           "A": flat_f(lin.A, n, n), "B": flat_f(lin.B, n, m),
+                           "C": flat_f(lin.C, p, n), "D": flat_f(lin.D, p, m)}}
+        if k in ("dyn", "out"):
+            return {"ok": {"v": [tok(fr(q)) for q in np.asarray(raw, dtype=float).reshape(-1)]}}
+        if k == "op":
+            op = raw
             fl = lambda v: [tok(fr(x)) for x in np.asarray(v, dtype=float).reshape(-1)]
             return {"ok": {"success": bool(op.result.success), "x": fl(op.states), "u": fl(op.inputs),
                            "y": fl(op.outputs)}}
@@ -1591,6 +1975,10 @@ class C08(Family):
         if case["kind"] == "hist":
             outs = out if isinstance(out, list) else [out]
             return {"steps": [self.parse_model(self.step_case(case, st), o)
+                              for st, o in zip(case["steps"], outs)]}
+        if case["kind"] == "ahist":     # (round 3)
+            outs = out if isinstance(out, list) else [out]
+            return {"steps": [self.parse_model(self.astep_case(case, st), o)
                               for st, o in zip(case["steps"], outs)]}
         if out.startswith("err "):
             return {"err": out.split()[1]}
@@ -1697,6 +2085,8 @@ class C08(Family):
         k = case["kind"]
         if k == "hist":
             return self.compare_hist(case, impl, model)
+        if k == "ahist":     # (round 3)
+            return self.compare_ahist(case, impl, model)
         if k == "op" and "ok" in model and model["ok"]["what"] != "sol":
             return Verdict(AGREE)      # singular / non-square root problem: nothing is claimed
         if k == "op" and model.get("err") == "illPosed":
@@ -1944,6 +2334,12 @@ class C08(Family):
         return all(pow2(Fraction(v).denominator) for key in "xuy" for v in model["ok"][key])
 
     def nontrivial(self, case, model):
+        if case["kind"] == "ahist":     # (round 3) >= 2 calls sharing a caller-owned / returned array, one of them
+            # an operating point the model determines
+            st = case["steps"]
+            shared = sum(1 for x in st if any(self.is_ref(x.get(k)) for k in self.REF_KEYS))
+            return shared >= 2 and any(x["kind"] == "op" and mm.get("ok", {}).get("what") == "sol"
+                                       for x, mm in zip(st, model["steps"]))
         if case["kind"] == "hist":
             # an override followed by a call without one, all calls answered by the model
             st = case["steps"]
@@ -1969,6 +2365,21 @@ class C08(Family):
 
     def stats(self, case, impl, model):
         t = case["sys"]
+        if case["kind"] == "ahist":     # (round 3)
+            st = case["steps"]
+            refs = [x[k] for x in st for k in self.REF_KEYS if self.is_ref(x.get(k))]
+            ops = [(x, mm) for x, mm in zip(st, model["steps"]) if x["kind"] == "op"]
+            branch = "none" if not ops else ("general" if any(ops[0][0][q] is not None for q in ("iu", "iy", "ix", "idx"))
+                                             else "outputs-fixed" if ops[0][0]["Y0"][0] != "N" else "inputs-fixed")
+            return {"kind": "ahist", "root": t[0], "steps": len(st), "timebase": tree_dt(t)[0],
+                    "calls": "+".join(sorted({x["kind"] for x in st})),
+                    "op_branch": branch,
+                    "op_solvable": sum(1 for x, mm in ops if mm.get("ok", {}).get("what") == "sol"),
+                    "pool_x": case["pool"].get("x", ["-"])[0], "pool_u": case["pool"].get("u", ["-"])[0],
+                    "same_object_twice": sum(1 for nm in case["pool"]
+                                             if sum(1 for r in refs if r[0] == "R" and r[1] == nm) >= 2) > 0,
+                    "warm_start": any(r[0] == "W" for r in refs),
+                    "x_and_u_one_array": any(self.is_ref(x.get("U0")) and x["U0"][:2] == ["R", "x"] for x in st)}
         if case["kind"] == "hist":
             steps = case["steps"]
             decl = any(lf[0] == "P" and lf[5] for lf in leaves(t))
@@ -2034,6 +2445,9 @@ class C08(Family):
     # ---- shrinking / search ----------------------------------------------------
     def shrink(self, case):
         t = case["sys"]
+        if case["kind"] == "ahist":     # (round 3)
+            yield from self.shrink_ahist(case)
+            return
         if case["kind"] == "hist":
             st = case["steps"]
             for j in range(len(st)):
@@ -2077,7 +2491,7 @@ class C08(Family):
 
     def search(self, rng, case, tier):
         gen = {"resp": self.case_resp, "lin": self.case_lin, "op": self.case_op, "shape": self.case_shape,
-               "cresp": self.case_cresp, "hist": self.case_hist}
+               "cresp": self.case_cresp, "hist": self.case_hist, "ahist": self.case_ahist}
         return [gen[case["kind"]](rng, "quick") for _ in range(300)]
 
 
